@@ -57,7 +57,7 @@ package go_clipper2
 //@   ensures [exact53] absI(cross(pt1, pt2, pt3)) <= pow2(53) ==> result == toReal(cross(pt1, pt2, pt3))
 
 //@ func getBounds
-//@   props C14
+//@   props C14 C04 C03
 //@   pure
 //@   loop 0 invariant [contains] forall(k, 0, _i, inBounds(result, path[k]))
 //@   loop 0 invariant [attained] _i > 0 ==> (exists(k, 0, _i, result.left == path[k].X) && exists(k, 0, _i, result.right == path[k].X) && exists(k, 0, _i, result.top == path[k].Y) && exists(k, 0, _i, result.bottom == path[k].Y))
@@ -143,14 +143,14 @@ package go_clipper2
 //@   initfields clipperBase.succeeded clipperBase.fillRule clipperBase.clipType clipperBase.currentBotY clipperBase.currentLocMin clipperBase.sel clipperBase.usingPolyTree
 
 //@ func clipper64.ExecuteOC
-//@   props C12 C17
+//@   props C12 C17 C09
 //@   requires c.clipperBase != nil
 //@   ensures [idle] idle(c.clipperBase)
 //@   replaces solutionClosed solutionOpen
 //@   initfields clipperBase.succeeded clipperBase.fillRule clipperBase.clipType clipperBase.currentBotY clipperBase.currentLocMin clipperBase.sel clipperBase.usingPolyTree
 
 //@ func clipper64.ExecutePolyTree64
-//@   props C12 C17
+//@   props C12 C17 C04 C09
 //@   requires c.clipperBase != nil && polytree != nil && polytree.PolyPathBase != nil
 //@   ensures [idle] idle(c.clipperBase)
 //@   replaces polytree openPaths
@@ -164,21 +164,21 @@ package go_clipper2
 //@   initfields clipperBase.succeeded clipperBase.fillRule clipperBase.clipType clipperBase.currentBotY clipperBase.currentLocMin clipperBase.sel clipperBase.usingPolyTree
 
 //@ func clipperD.ExecuteOC
-//@   props C12 C17
+//@   props C12 C17 C09
 //@   requires c.clipperBase != nil
 //@   ensures [idle] idle(c.clipperBase)
 //@   replaces solutionClosed solutionOpen
 //@   initfields clipperBase.succeeded clipperBase.fillRule clipperBase.clipType clipperBase.currentBotY clipperBase.currentLocMin clipperBase.sel clipperBase.usingPolyTree
 
 //@ func clipperD.ExecuteWithScaleFunc
-//@   props C12 C17
+//@   props C12 C17 C09
 //@   requires c.clipperBase != nil
 //@   ensures [idle] idle(c.clipperBase)
 //@   replaces solutionClosed solutionOpen
 //@   initfields clipperBase.succeeded clipperBase.fillRule clipperBase.clipType clipperBase.currentBotY clipperBase.currentLocMin clipperBase.sel clipperBase.usingPolyTree
 
 //@ func clipperD.ExecutePolyTreeD
-//@   props C12 C17
+//@   props C12 C17 C04 C09
 //@   requires c.clipperBase != nil && polytree != nil && polytree.PolyPathBase != nil
 //@   ensures [idle] idle(c.clipperBase)
 //@   replaces polytree openPaths
@@ -1861,6 +1861,16 @@ package go_clipper2
 //@   ensures [advances] old(*i) <= *i && *i <= highI + 1
 //@   ensures [valid-location] validLoc(*loc)
 //@   ensures [left-the-previous-side] *i <= highI ==> *loc != old(*loc)
+//@   loop 0 invariant [skipped-only-vertices-beyond-the-side-being-left] forall(k, old(*i), *i, beyondSide(old(*loc), path[k], r.rect))
+//@   loop 1 invariant [skipped-only-vertices-beyond-the-side-being-left] forall(k, old(*i), *i, beyondSide(old(*loc), path[k], r.rect))
+//@   loop 2 invariant [skipped-only-vertices-beyond-the-side-being-left] forall(k, old(*i), *i, beyondSide(old(*loc), path[k], r.rect))
+//@   loop 3 invariant [skipped-only-vertices-beyond-the-side-being-left] forall(k, old(*i), *i, beyondSide(old(*loc), path[k], r.rect))
+//@   ensures [skipped-only-vertices-beyond-the-side-being-left] old(*loc) != Inside ==> forall(k, old(*i), *i, beyondSide(old(*loc), path[k], r.rect))
+//@   ensures [from-a-side-the-opposite-side-is-tested-first-then-the-two-neighbours] (*i <= highI && old(*loc) != Inside) ==> (!beyondSide(old(*loc), path[*i], r.rect) && *loc == nextLocFromSide(old(*loc), path[*i], r.rect))
+//@   ensures [from-inside-the-first-vertex-strictly-outside-names-the-side] (*i <= highI && old(*loc) == Inside) ==> *loc == ite(path[*i].X < r.rect.left, Left, ite(path[*i].X > r.rect.right, Right, ite(path[*i].Y > r.rect.bottom, Bottom, Top))) && (*loc != Top || path[*i].Y < r.rect.top)
+
+//@ spec beyondSide(side Location, p Point64, rect Rect64) bool = (side == Left && p.X <= rect.left) || (side == Top && p.Y <= rect.top) || (side == Right && p.X >= rect.right) || (side == Bottom && p.Y >= rect.bottom)
+//@ spec nextLocFromSide(side Location, p Point64, rect Rect64) Location = ite(side == Left, ite(p.X >= rect.right, Right, ite(p.Y <= rect.top, Top, ite(p.Y >= rect.bottom, Bottom, Inside))), ite(side == Top, ite(p.Y >= rect.bottom, Bottom, ite(p.X <= rect.left, Left, ite(p.X >= rect.right, Right, Inside))), ite(side == Right, ite(p.X <= rect.left, Left, ite(p.Y <= rect.top, Top, ite(p.Y >= rect.bottom, Bottom, Inside))), ite(p.Y <= rect.top, Top, ite(p.X <= rect.left, Left, ite(p.X >= rect.right, Right, Inside))))))
 
 //@ spec rectOK(r *RectClip64) bool = len(r.rectPath) == 4 && rectDom(r.rect) && r.rectPath[0] == Point64{r.rect.left, r.rect.top} && r.rectPath[1] == Point64{r.rect.right, r.rect.top} && r.rectPath[2] == Point64{r.rect.right, r.rect.bottom} && r.rectPath[3] == Point64{r.rect.left, r.rect.bottom} && len(r.edges) == 8 && dom(r.mp, 29)
 
@@ -1880,10 +1890,18 @@ package go_clipper2
 //@   props C06 C03
 //@   assumes sideLoc(*loc) && len(r.rectPath) == 4
 //@   ensures [moves-to-adjacent-side] sideLoc(*loc) && *loc == ite(isClockwise, ite(old(*loc) == 3, 0, old(*loc)+1), ite(old(*loc) == 0, 3, old(*loc)-1))
+//@   assert after call:RectClip64.add#0 [clockwise-the-corner-that-ends-the-current-side-is-added-before-moving-on] isClockwise && same(arg0, r.rectPath[int(*loc)]) && !arg1
+//@   assert after call:RectClip64.add#1 [anticlockwise-the-corner-that-starts-the-side-moved-to-is-added] !isClockwise && same(arg0, r.rectPath[cornerBetween(ite(*loc == 3, 0, *loc+1), *loc)]) && *loc == old(*loc) && !arg1
 
 //@ func RectClip64.addCornerLocation
 //@   props C06 C03
 //@   assumes sideLoc(prev) && sideLoc(curr) && len(r.rectPath) == 4
+//@   assert after call:RectClip64.add#0 [the-corner-between-the-two-sides-is-added] same(arg0, r.rectPath[cornerBetween(prev, curr)]) && !arg1
+//@   assert after call:RectClip64.add#1 [the-corner-between-the-two-sides-is-added] same(arg0, r.rectPath[cornerBetween(prev, curr)]) && !arg1
+
+// sides and corners are numbered clockwise from Left / top-left: going clockwise from side a the corner passed is
+// corner a; going the other way from side a to side b it is corner b
+//@ spec cornerBetween(a Location, b Location) int = ite((a == 0 && b == 1) || (a == 1 && b == 2) || (a == 2 && b == 3) || (a == 3 && b == 0), int(a), int(b))
 
 //@ func RectClip64.executeInternal
 //@   props C06 C03
@@ -2768,6 +2786,30 @@ package go_clipper2
 //@   assert after call:scaleFn#1 [open-paths-go-through-the-callers-function-at-the-inverse-scale] same(arg0, path) && arg1 == c.invScale && c.invScale == old(c.invScale) && c.scale == old(c.scale)
 //@   loop 0 invariant [one-result-per-closed-path] len(*solutionClosed) == _i
 //@   loop 1 invariant [one-result-per-open-path] len(*solutionOpen) == _i && len(*solutionClosed) == len(solClosed64)
+
+// which mode the sweep runs in (C04, C12): the tree entry points switch the engine to tree mode before the sweep (the
+// sweep records owners and splits only in that mode), the path entry points switch it back, whatever ran before
+//@ func clipperBase.execute variant mode
+//@   props C04 C12 C09
+//@   nosafety
+//@   opaque clipperBase.executeInternal clipperBase.buildPaths clipperBase.clearSolutionOnly
+//@   assert after call:clipperBase.executeInternal#0 [the-sweep-for-flat-paths-never-runs-in-tree-mode-and-runs-the-requested-operation] !old(c.usingPolyTree) && arg0 == clipType && arg1 == fillRule
+
+//@ func clipper64.ExecutePolyTree64 variant mode
+//@   props C04 C12
+//@   nosafety
+//@   opaque clipperBase.executeInternal clipperBase.buildTree clipperBase.clearSolutionOnly PolyPathBase.Clear
+//@   assert after call:clipperBase.executeInternal#0 [the-sweep-for-a-tree-runs-in-tree-mode-and-runs-the-requested-operation] old(c.clipperBase.usingPolyTree) && arg0 == clipType && arg1 == fillRule
+//@   assert after call:clipperBase.buildTree#0 [the-callers-tree-is-filled] arg0 == polytree.PolyPathBase
+
+//@ func clipperD.ExecutePolyTreeD variant mode
+//@   props C04 C12 C07
+//@   nosafety
+//@   opaque clipperBase.executeInternal clipperBase.buildTree clipperBase.clearSolutionOnly PolyPathBase.Clear
+//@   assert after call:clipperBase.executeInternal#0 [the-sweep-for-a-tree-runs-in-tree-mode-and-runs-the-requested-operation] old(c.clipperBase.usingPolyTree) && arg0 == clipType && arg1 == fillRule
+//@   assert after call:clipperBase.buildTree#0 [the-callers-tree-is-filled] arg0 == polytree.PolyPathBase
+//@   assert after call:PolyTreeD.SetScale#0 [the-tree-reports-coordinates-at-the-engines-scale] arg0 == c.scale
+//@   loop 0 invariant [open-paths-are-divided-by-the-scale-one-by-one] len(*openPaths) == _i && forall(k, 0, _i, same((*openPaths)[k], ScalePath64ToPathD(oPaths[k], c.invScale)))
 
 // isClockwise (C06, C13): between two opposite sides of the rectangle the turn is read off the exact sign of the
 // cross product through the rectangle's mid-point; adjacent sides turn clockwise when the second follows the first
